@@ -13,6 +13,8 @@ C12 line-protocol driver.
   answer: per step  <resp>  for G/H, and  <resp>/<config>/<ids>/<probe loads>/<probe saw>/<loads>/<autosave file>  otherwise
           (loads = how often any configuration was started)
       resp  = g:<tree|->:<etag path hex> | w | d:<tree> (/adapt) | r | amb | F<status>:<class>
+            | ww (/load, 200 with adapter warnings) | dw:<tree> (/adapt with warnings)
+            | W200:<class> (/load: warnings written, then the load was rejected — the client reads 200)
       ids   = for every distinct "@id" text in the config, sorted: <hex>=<resp of GET /id/<text>, etag path only>
   cas <k> <n>                 k concurrent clients × n conditional increments → `cas <k*n>`
   pull <tree T> <pulled: tree|!>
@@ -25,6 +27,12 @@ C12 line-protocol driver.
                               overlapping GETs after loading <tree>: GET A is served with a ResponseWriter whose
                               first Write performs complete GETs of B, C, D through the same handler before it
                               looks at its argument; answer: the GET answers of A|B|C|D
+  ovl <tree> <M,path,body> <M,path,body> <GET path hex>
+                              after loading <tree>: writer A is held inside changeConfig by the probe app while writer B
+                              and the GET wait; answer: outcome of the serial order A;B;R | outcome of A;R;B
+  wire <tree> <M> <target hex> <body>
+                              after loading <tree>: one request whose request line carries <target> verbatim, through
+                              a real http.Server in front of the handler; answer <resp | B400>/<config>/<ids>
   idrace <n> | peek <k> <n>   concurrency samples on the real handler for Regions.lean: the two critical
                               sections of /id/ requests; a rejected write is invisible to concurrent readers
   clean <p> | join <a> <b> | fields <s> | atoi <s> | itoa <n> | route <p>
@@ -32,6 +40,8 @@ C12 line-protocol driver.
                               strconv.Atoi/Itoa and the ServeMux dispatch, against the real functions
 -/
 import CaddyModel.C12.Model
+import CaddyModel.C12.Wire
+import CaddyModel.C12.Warn
 
 namespace CaddyModel.C12
 
@@ -164,6 +174,11 @@ def wrapAdapter : Body → Option Json
   | _ => none
 
 def drvEnv : Env := ⟨hashText, probeAccepts, wrapAdapter⟩
+
+/-- … and warns about a body that is an object with a member "warn" -/
+def drvWarns : Body → Bool
+  | .val (.obj kvs) => (lookup (str "warn") kvs).isSome
+  | _ => false
 
 /-- what the probe app was started with, if the running config has one -/
 def probeOf : Option Json → Option Json
@@ -299,6 +314,44 @@ def pathOK (p : Bytes) : Bool :=
   asciiOnly p && (cfgPrefix.isPrefixOf p || idPrefix.isPrefixOf p || p == loadPath || p == adaptPath) &&
     !(splitSlash p).any forbiddenName
 
+/-! #### the wire op: domain shared with the harness -/
+
+def wireByteOK (c : UInt8) : Bool := (0x21 ≤ c && c ≤ 0x7f) || (1 ≤ c && c ≤ 8)
+
+def hasDup : List Bytes → Bool
+  | [] => false
+  | x :: r => r.contains x || hasDup r
+
+def wireDomain (m : HMethod) (decoded : Bytes) (body : Body) : Bool :=
+  decoded.all (fun c => 0x20 ≤ c && c ≤ 0x7e) &&
+  ((str "/config").isPrefixOf decoded || (str "/id").isPrefixOf decoded || loadPath.isPrefixOf decoded ||
+    adaptPath.isPrefixOf decoded) &&
+  (splitSlash decoded).all (fun seg => (seg == dotdot && m == .get && cfgPrefix.isPrefixOf decoded) || !forbiddenName seg) &&
+  !(decoded == adaptPath && m == .post && body == .empty)
+
+def showWire (isGet : Bool) : WireResp → String
+  | .badRequest => "B400"
+  | .served r => showResp isGet r
+
+/-! #### the ovl op -/
+
+def parseOvlStep (st : String) : Option Req :=
+  match st.splitOn "," with
+  | [m, p, b] =>
+    match parseMethod m, Hex.decode p, parseBody b with
+    | some hm, some path, some body =>
+      if hm == .get || hm == .other || !pathOK path || !cfgPrefix.isPrefixOf path then none
+      else some ⟨hm, path, body, [], false, .json⟩
+    | _, _, _ => none
+  | _ => none
+
+/-- answers of A, B, the GET, and the final document, for the serial order A;B;R (`true`) or A;R;B -/
+def ovlOrder (s0 : State) (a b g : Req) (bFirst : Bool) : String :=
+  let x := serve drvEnv a s0
+  let y := serve drvEnv b x.1
+  let rg := if bFirst then (serve drvEnv g y.1).2 else (serve drvEnv g x.1).2
+  showResp false x.2 ++ ";" ++ showResp false y.2 ++ ";" ++ showResp true rg ++ ";" ++ encTree (cfgOf y.1.rawCfg)
+
 def stepDrv (d : Drv) (step : String) : Option Drv :=
   match step.splitOn "," with
   | [m, p, b, im, fl] =>
@@ -319,9 +372,18 @@ def stepDrv (d : Drv) (step : String) : Option Drv :=
       let ps := if loaded && (probeOf s'.running).isSome then probeOf s'.running else d.probeSaw
       -- unsyncedDecodeAndRun: `if allowPersist && newCfg != nil && persist not disabled` write cfgJSON
       let sv := if loaded && cfgOf s'.rawCfg != .null then some (cfgOf s'.rawCfg) else d.saved
+      -- adapter warnings: /adapt carries them in its answer; /load has written them (and with them the
+      -- status line 200) before caddy.Load ran (Warn.lean)
+      let warned := (path == loadPath || path == adaptPath) && warnsWritten drvEnv drvWarns req
+      let rs := if !warned then showResp isGet resp else
+        match resp with
+        | .okWrite => "ww"
+        | .okAdapt j => "dw:" ++ encTree j
+        | .fail f => "W200:" ++ showFail f
+        | r => showResp isGet r
       let line :=
         if hm == .get || hm == .other then showResp isGet resp
-        else showResp isGet resp ++ "/" ++ encTree (cfgOf s'.rawCfg) ++ "/" ++ showIds s' ++ "/" ++
+        else rs ++ "/" ++ encTree (cfgOf s'.rawCfg) ++ "/" ++ showIds s' ++ "/" ++
           toString pl ++ "/" ++ (match ps with | some j => encTree j | none => "-") ++ "/" ++ toString s'.loads ++ "/" ++ (match sv with | some j => encTree j | none => "-")
       some { s := s', etags := d.etags ++ [et], probeLoads := pl, probeSaw := ps, saved := sv, out := line :: d.out }
     | _, _, _, _, _ => none
@@ -425,6 +487,27 @@ def handle : List String → String
       let s := (serve drvEnv ⟨.post, cfgPrefix, .val j, [], false, .json⟩ initState).1
       "|".intercalate (ps.map fun p => showResp true (serve drvEnv (getReq p) s).2)
     | _, _ => "bad-op"
+  | ["ovl", doc, a, b, p] =>
+    -- writer A held inside changeConfig (write lock) while writer B and a GET wait: by the lock model
+    -- (Regions.lean) the outcome is that of A;B;R or of A;R;B — both are the answer
+    match parseWholeTree doc, parseOvlStep a, parseOvlStep b, Hex.decode p with
+    | some j, some ra, some rb, some gp =>
+      if !pathOK gp || !cfgPrefix.isPrefixOf gp then "bad-op" else
+      let s0 := (serve drvEnv ⟨.post, cfgPrefix, .val j, [], false, .json⟩ initState).1
+      ovlOrder s0 ra rb (getReq gp) true ++ "|" ++ ovlOrder s0 ra rb (getReq gp) false
+    | _, _, _, _ => "bad-op"
+  | ["wire", doc, m, t, b] =>
+    -- one request written byte by byte onto a connection of a real http.Server in front of the handler,
+    -- after loading <doc>: net/http parses the target, the mux routes on the escaped path, the handlers
+    -- address the decoded one (Wire.lean)
+    match parseWholeTree doc, parseMethod m, Hex.decode t, parseBody b with
+    | some j, some hm, some tg, some body =>
+      if hm == .other || hasDup (idTexts j) || tg.head? != some slash || !tg.all wireByteOK then "bad-op"
+      else if (match parseTarget tg with | some (p, _) => !wireDomain hm p body | none => false) then "bad-op" else
+      let s1 := (serve drvEnv ⟨.post, cfgPrefix, .val j, [], false, .json⟩ initState).1
+      let x := wireServe drvEnv ⟨hm, [], body, [], false, .json⟩ tg s1
+      showWire (hm == .get) x.2 ++ "/" ++ encTree (cfgOf x.1.rawCfg) ++ "/" ++ showIds x.1
+    | _, _, _, _ => "bad-op"
   | ["idrace", n] =>
     -- samples the two lock regions of /id/ requests on the real handler (Regions.lean); the race is
     -- not a function of the input, the answer is constant
@@ -445,7 +528,9 @@ def handle : List String → String
 
 /-- counter-example lines replayed on the implementation on every run (see Witness.lean) -/
 def witnessLines : List String := [
-  "C12 hist P,2f636f6e6669672f,{61707073.{633132.{61.{62.#7#}612f62.{406964.s73.76.#1#}}}},-,-;G,2f69642f73,-,-,-"
+  "C12 hist P,2f636f6e6669672f,{61707073.{633132.{61.{62.#7#}612f62.{406964.s73.76.#1#}}}},-,-;G,2f69642f73,-,-,-",
+  -- rejected_load_is_reported_full_fails: {"reject":true,"warn":null} through the adapter: warnings, then the load fails
+  "C12 hist P,2f6c6f6164,{72656a656374.t7761726e.n},-,w"
 ]
 
 end CaddyModel.C12
